@@ -213,3 +213,26 @@ Lemma perp_plane_iso (x : arr NumR) K G K' G' :
   dot21 (vsub x (iso_vec K G)) uK = 0 -> dot21 (vsub x (iso_vec K G)) uG = 0 ->
   dot21 (vsub x (iso_vec K G)) (iso_vec K' G') = 0.
 Proof. intros H1 H2. rewrite dot21_iso, H1, H2. ring. Qed.
+
+(* a vector in the orthorhombic range is in the monoclinic range (its triclinic and
+   monoclinic parts, x - mono x and mono x - ortho (mono x), vanish) *)
+Lemma ortho_range_in_mono (x : arr NumR) : veq (k_ortho_project x) x -> veq (k_mono_project x) x.
+Proof.
+  intros H k Hk.
+  do 21 (destruct k as [|k]; [
+    lazy [k_mono_project mk_arr nth]; numR;
+    first [ reflexivity
+          | match goal with |- 0 = x ?j =>
+              rewrite <- (H j ltac:(lia)); lazy [k_ortho_project mk_arr nth]; numR; reflexivity end ] |]).
+  exfalso; lia.
+Qed.
+
+Lemma C12_nonvacuous_proof : sym6 (fun _ : nat => 1) /\ orth (mat3 (@eye3 NumR)) /\
+  0 < sumsq 21 (@k_voigt_matrix_to_vector NumR (fun _ => 1)).
+Proof.
+  split; [intros i j _ _; reflexivity|]. split.
+  - intros a e Ha He. destruct a as [|[|[|a]]]; try lia; destruct e as [|[|[|e]]]; try lia;
+    cbv [sum3 mat3 eye3 mk_arr nth Nat.eqb Nat.add Nat.mul]; numR; ring.
+  - cbv [sumsq seq fold_right k_voigt_matrix_to_vector mk_arr nth]; numR.
+    pose proof sqrt2_pos. nra.
+Qed.
